@@ -84,8 +84,8 @@ func runOne(id int, raw []byte, timeout time.Duration) O {
 				js, _ := json.Marshal(enc.D(l))
 				line := string(js)
 				// (a JSON message is one whatever white space it starts with: every third line is indented)
-				if lineNo++; lineNo%3 == 0 {
-					line = []string{" ", "\t", "  "}[lineNo%3+(lineNo/3)%3%2] + line
+				if lineNo++; lineNo%2 == 1 {
+					line = []string{" ", "\t", "  "}[(lineNo/2)%3] + line
 				}
 				iop.Inputs = append(iop.Inputs, line)
 			}
@@ -93,6 +93,14 @@ func runOne(id int, raw []byte, timeout time.Duration) O {
 		for _, o := range st.Outs {
 			out := expect.Output{Pattern: enc.D(o.Pat), Inverted: o.Inv}
 			if ops := decodeOps(o.Guard); ops != nil {
+				if id%2 == 1 {
+					// (a guard declines by returning null - or by ending without a word, in every other session)
+					for k := range ops {
+						if ops[k].Name == "retnull" {
+							ops[k].Name = "retundef"
+						}
+					}
+				}
 				out.GuardSource = &core.ActionSource{Interpreter: "ecmascript", Source: mach.JS(ops)}
 			}
 			iop.OutputSet = append(iop.OutputSet, out)
